@@ -3006,7 +3006,11 @@ def constants_from_enum(cls=None, module=None):
 
 @register_finalize_hook
 def validate_macros_hook(config):
-  for ref in iterate_references(config, to=get_configurable(macro)):
+  # The registry's own (unscoped) version: `get_configurable` would decorate it
+  # with whatever scope happens to be active while finalizing, and then match
+  # no reference at all.
+  macro_wrapper = _inverse_lookup(macro).wrapper
+  for ref in iterate_references(config, to=macro_wrapper):
     validate_reference(ref, require_evaluation=True)
 
 
